@@ -1,0 +1,1 @@
+//! Hooks into `record_store` (child module: sees its private items).
